@@ -41,6 +41,11 @@ Print Assumptions C16_grid.
 Print Assumptions C16_arange_len.
 Print Assumptions C16_weight.
 Print Assumptions C16_weight_dc.
+(** the filters are functions of (image, cutoff, order): no state survives a call (generated syntactic fact: neither the
+    image argument nor the cached weights are modified in place) *)
+Theorem C16_no_memory : filters_have_no_memory = true.
+Proof. reflexivity. Qed.
+
 Print Assumptions C16_weight_even.
 Print Assumptions C16_shape.
 Print Assumptions C16_shape_anchor.
